@@ -215,12 +215,14 @@ func Implies(a, b Term) Term {
 	}
 	return App(SBool, "=>", a, b)
 }
-func Eq(a, b Term) Term       { return App(SBool, "=", a, b) }
-func Lt(a, b Term) Term       { return App(SBool, "<", a, b) }
-func Le(a, b Term) Term       { return App(SBool, "<=", a, b) }
-func Add(a, b Term) Term      { return App(SInt, "+", a, b) }
-func Sub(a, b Term) Term      { return App(SInt, "-", a, b) }
-func Ite(c, a, b Term) Term   { return Term{S: "(ite " + c.S + " " + a.S + " " + b.S + ")", Sort: a.Sort, Fn: a.Fn} }
+func Eq(a, b Term) Term  { return App(SBool, "=", a, b) }
+func Lt(a, b Term) Term  { return App(SBool, "<", a, b) }
+func Le(a, b Term) Term  { return App(SBool, "<=", a, b) }
+func Add(a, b Term) Term { return App(SInt, "+", a, b) }
+func Sub(a, b Term) Term { return App(SInt, "-", a, b) }
+func Ite(c, a, b Term) Term {
+	return Term{S: "(ite " + c.S + " " + a.S + " " + b.S + ")", Sort: a.Sort, Fn: a.Fn}
+}
 func Select(a, i Term) Term   { return App(a.Sort.Elem, "select", a, i) }
 func Store(a, i, v Term) Term { return App(a.Sort, "store", a, i, v) }
 
